@@ -103,7 +103,7 @@ func gtProcSpaghetti(seed int64, numeric bool, v1, v2 int) *Sim {
 		p2 := &gtProcSpec{TLA: in.p2, Go: "Proc2", Labels: map[string]string{"Proc2.Proc2lbl1": "Proc2lbl1" + in.sfx}}
 		x.wrap(p, map[string]string{"Arch1.Arch1lbl": in.lbl}, []*gtProcSpec{p1, p2}, calls)
 		tables[in.name] = map[string]any{"self": in.self, "instance": "Arch1(ref " + in.v + map[bool]string{true: " via M", false: ""}[in.mapped] + ", f)",
-			"labels": map[string]string{"Arch1.Arch1lbl": in.lbl, "Proc1.Proc1lbl1": p1.Labels["Proc1.Proc1lbl1"], "Proc1.Proc1lbl2": p1.Labels["Proc1.Proc1lbl2"], "Proc2.Proc2lbl1": p2.Labels["Proc2.Proc2lbl1"]},
+			"labels":     map[string]string{"Arch1.Arch1lbl": in.lbl, "Proc1.Proc1lbl1": p1.Labels["Proc1.Proc1lbl1"], "Proc1.Proc1lbl2": p1.Labels["Proc1.Proc1lbl2"], "Proc2.Proc2lbl1": p2.Labels["Proc2.Proc2lbl1"]},
 			"procedures": map[string]string{"Proc1": in.p1, "Proc2": in.p2},
 			"locals":     map[string]string{"Arch1.f": in.fVar + " (scalar)", "Proc1.b": in.bVar + "[self]", "Proc1.c": in.cVar + "[self]", "Proc1.a / Proc2.a_": "(ref, specialised away: " + in.v + ")"}}
 	}
